@@ -119,7 +119,11 @@ def shrink(mod, case, pred):
     cur = case
     for _ in range(40):
         improved = False
-        cands = list(mod.shrink(cur))[:60]
+        try:
+            cands = list(mod.shrink(cur))[:60]
+        except Exception as ex:       # a generator's shrinker must never cost the report of a failure: keep the unshrunk case
+            sys.stderr.write("shrink failed (%s: %s); the case is reported as generated\n" % (type(ex).__name__, ex))
+            break
         if not cands:
             break
         cands = [dict(c) for c in cands]
@@ -286,7 +290,13 @@ def run_check(prop, tier, replay=None):
 
     # ---- evidence ---------------------------------------------------------------------------------------
     samples = []
-    desc = getattr(mod, "describe", lambda c: strip(c))
+    desc0 = getattr(mod, "describe", lambda c: strip(c))
+
+    def desc(c):
+        try:
+            return desc0(c)
+        except Exception as ex:       # a description is documentation: it must never cost the verdict
+            return {"undescribed": "%s: %s" % (type(ex).__name__, ex), "case": strip(c)}
     step = max(1, len(cases) // 5)
     for i in range(0, len(cases), step):
         samples.append({"case": desc(cases[i]), "impl": trim(r["obs"][i])})
